@@ -62,10 +62,10 @@ theorem walkLaws_py : WalkLaws pyWalkHost := Fingerprint.walkLaws_py
 /-! ## everything `normalize_url` ignores is ignored -/
 
 /-- the second pass as a function of what `normalize_url(…, unsplit=False)` returned (`inl`: the
-unparseable argument itself, which cannot be unpacked) -/
-def fpOfNorm (E : Env) (s : Bool) : Str ⊕ Split → Except Err Split
-  | .inl x => if x.length = 5 then .error .attributeError else .error .valueError
-  | .inr r => fpParts E s r
+unparseable argument itself, returned as it is) -/
+def fpOfNorm (E : Env) (s : Bool) : Str ⊕ Split → Except Err (Str ⊕ Split)
+  | .inl x => .ok (.inl x)
+  | .inr r => (fpParts E s r).map .inr
 
 /-- **definitional factorisation** (a lemma: it unfolds the definition): `fingerprint_url` sees its
 argument only through `normalize_url(url.lower(), query_item_filter=lang, lowercase=True,
@@ -641,7 +641,8 @@ example : HostSafe (normHostOf id (hostParsed "fr-fr.facebook.com")) ∧ PortOk 
 example : lower "HTTP://User@A.com/%C3%89?K=V#F".toList = lower "http://user@a.COM/%c3%89?k=v#f".toList := by
   decide
 
-/-- unparseable input (reading: outside the quantifier): the model says which exception -/
-example : (fingerprintUrl tripleEnv false "http://[::1".toList).toOption = none := by decide +kernel
+/-- unparseable input: the lower-cased argument comes back (FX-C07-FPTOTAL) -/
+example : (fingerprintUrl tripleEnv false "HTTP://[::1".toList).toOption = some "http://[::1".toList := by
+  decide +kernel
 
 end Ural.Props.C06
